@@ -1,0 +1,11 @@
+//go:build verif
+
+package types
+
+// Contracts for the deductive checks in /verif (tool: govc). Comment-only; build tag `verif`.
+
+//@ func IsZeroAddress(addr)
+//@   pure
+//@   nopanic
+//@   ensures result == (forall i :: 0 <= i && i < len(addr) ==> addr[i] == 0)
+//@   loop 0: invariant forall i :: 0 <= i && i <= rangeindex ==> addr[i] == 0
